@@ -56,6 +56,9 @@ type flakyFetcher struct {
 	fired  int
 	seq    []blob.Ref // refs fetched since arming, in order (recorded while k >= 0)
 	record bool
+	// sticky (by-ref mode only): EVERY fetch of ref fails while armed (a blob that is
+	// missing / unreachable for the duration of the read), not just the first one.
+	sticky bool
 }
 
 func (f *flakyFetcher) arm(k int, ref blob.Ref, kind string) {
@@ -100,7 +103,7 @@ func (f *flakyFetcher) Fetch(ctx context.Context, br blob.Ref) (io.ReadCloser, u
 		f.calls++
 		if (f.k > 0 && f.calls == f.k) || (f.k == 0 && br == f.ref) {
 			fail = true
-			f.armed = false
+			f.armed = f.sticky && f.k == 0
 			f.fired++
 		}
 	}
